@@ -287,6 +287,7 @@ def rate_pair(ctx, rule):
             ctx.ok(rule, f, s.stmt, 'writer stores -int(1/bpv) iff bpv < 1, with a signed codec')
         else:
             ctx.fail(rule, f, s.stmt, 'the stored bit rate is not `-int(1/bpv) if bpv < 1 else int(bpv)` with a signed codec')
+    seen_funcs = set()
     for s in ht.loads:
         if (s.lo, s.hi) != (row.lo, row.hi):
             continue
@@ -294,6 +295,26 @@ def rate_pair(ctx, rule):
         ft = TB.fmt_type(s.fmt)
         p = parent(s.value)
         name = U(p.targets[0]) if isinstance(p, ast.Assign) else None
+        if name is None or f.qualname in seen_funcs or sum(1 for l_ in ht.loads if l_.func is f and (l_.lo, l_.hi) == (row.lo, row.hi)) > 1:
+            # the decoded value is used in place (no local): `if dec(..) < 0: r = 1 / -dec(..)  else: r = dec(..)` - the same
+            # signed decode in the test and in both arms
+            if f.qualname in seen_funcs:
+                continue
+            seen_funcs.add(f.qualname)
+            dtxt = U(s.value)
+            okk = False
+            for n_ in ast.walk(f.node):
+                if isinstance(n_, ast.If) and isinstance(n_.test, ast.Compare) and len(n_.test.ops) == 1 and \
+                        isinstance(n_.test.ops[0], ast.Lt) and U(n_.test.left) == dtxt and U(n_.test.comparators[0]) == '0' and \
+                        len(n_.body) == 1 and len(n_.orelse) == 1 and isinstance(n_.body[0], ast.Assign) and \
+                        isinstance(n_.orelse[0], ast.Assign) and U(n_.body[0].targets[0]) == U(n_.orelse[0].targets[0]) and \
+                        U(n_.body[0].value).replace(' ', '') == ('1/-%s' % dtxt).replace(' ', '') and U(n_.orelse[0].value) == dtxt:
+                    okk = True
+            if okk and ft is not None and ft[1] == 'int':
+                ctx.ok(rule, f, s.stmt, 'reader decodes signed and inverts iff the stored value is negative')
+            else:
+                ctx.fail(rule, f, s.stmt, 'the reader does not decode the bit rate as `1 / -x if x < 0` from a signed field')
+            continue
         inv = [n for n in ast.walk(f.node) if isinstance(n, ast.If) and isinstance(n.test, ast.Compare) and
                U(n.test.left) == name and isinstance(n.test.ops[0], ast.Lt) and U(n.test.comparators[0]) == '0']
         ok = ft is not None and ft[1] == 'int' and name is not None and len(inv) == 1 and \
